@@ -126,8 +126,14 @@ def _rejection(ctx, chk, dims):
     ctx.require(len(raises) >= 3, 'rejections in _check_limit')
     seen = set()
     for node in raises:
-        exc_name = N.txt(node.ast.exc.func) if isinstance(
-            node.ast.exc, ast.Call) else N.txt(node.ast.exc)
+        raised = node.ast.exc
+        if isinstance(raised, ast.Call):
+            # raise _helper(...) where the helper builds the exception
+            built = K.inline_expr_call(ctx.index, chk, raised)
+            if isinstance(built, ast.Call):
+                raised = built
+        exc_name = N.txt(raised.func) if isinstance(
+            raised, ast.Call) else N.txt(raised)
         hit = None
         for edge in node.pred:
             if edge.src.kind == 'test' and isinstance(edge.src.ast,
@@ -328,17 +334,28 @@ def _key_guarantee(ctx, mod, handlers, cap, chk):
         checks = [n for n, c in K.nodes_calling(
             graph, lambda c: isinstance(c.func, ast.Name) and
             c.func.id == '_check_capacity')]
+        rvar = func.params()[1]
         for key in sorted(used):
             defaulted = False
             for node in graph.nodes:
+                # rsrc.setdefault('<key>', <default>) before the check
+                if any(K.is_meth(c, 'setdefault') and
+                       K.recv_text(c) == rvar and len(c.args) == 2 and
+                       isinstance(c.args[0], ast.Constant) and
+                       c.args[0].value == key
+                       for c in C.node_calls(node)):
+                    defaulted = defaulted or all(K.guarded_by(
+                        graph, chk_, lambda e, n=node: e.src is n and
+                        e.kind != 'exc') for chk_ in checks)
                 if node.kind == 'stmt' and isinstance(node.ast,
                                                       ast.Assign) and \
-                        N.txt(node.ast.targets[0]) == "rsrc['%s']" % key:
-                    defaulted = all(K.guarded_by(
+                        N.txt(node.ast.targets[0]) == "%s['%s']" % (rvar,
+                                                                    key):
+                    defaulted = defaulted or all(K.guarded_by(
                         graph, chk_, lambda e, n=node, k=key:
                         e.src is n or any(
                             a.key[0] == 'in' and a.key[3] and
-                            a.key[1] == "'%s'" % k and a.key[2] == 'rsrc'
+                            a.key[1] == "'%s'" % k and a.key[2] == rvar
                             for a in N.Normaliser().facts_of_edge(e)))
                         for chk_ in checks)
             ok = key in req or defaulted
@@ -427,13 +444,23 @@ def _trait_limits(ctx, mod, cap):
             mine = [f for f in N.raw_only(facts[node])
                     if var in f.mentions]
             # the table tested is the table subtracted from
-            table = N.txt(node.ast.target).split('[')[0]
+            # (an alias of the trait's row is read through)
+            ttxt = N.txt(node.ast.target)
+            root = node.ast.target
+            while isinstance(root, (ast.Subscript, ast.Attribute)):
+                root = root.value
+            if isinstance(root, ast.Name):
+                held = K.func_env(func).get(root.id)
+                if isinstance(held, ast.Subscript) and \
+                        isinstance(held.value, ast.Name):
+                    ttxt = N.txt(N.subst(node.ast.target,
+                                         {root.id: held}))
+            table = ttxt.split('[')[0]
             ok = len(mine) == 1 and mine[0].key[0] == 'in' and \
                 mine[0].key[3] and mine[0].key[1] == var and \
                 mine[0].key[2] == table
             ctx.ob('C19.5', func, node, ok and
-                   N.txt(node.ast.target).startswith('%s[%s]' % (table,
-                                                                 var)),
+                   ttxt.startswith('%s[%s]' % (table, var)),
                    'subtracted from that trait, under `trait in free` only')
 
 
